@@ -48,6 +48,32 @@ def qastle_faithful(q: str) -> bool:
     return ast.dump(a) == ast.dump(b)
 
 
+def with_user_functions(R, backend: str, text: str) -> Tuple[str, List[Dict[str, Any]]]:
+    """wrap numeric member calls into injected C++ functions: one function-style, and ONE method-style function used at
+    up to three call sites (on different lambda variables where the query has them)"""
+    hits = list(re.finditer(r"(\bv\d+)\.(pt|eta|phi|m)\(\)", text))
+    if not hits:
+        return text, []
+    cls = {"atlas": "xAOD::Jet", "cms_aod": "reco::Muon", "cms_miniaod": "pat::Muon"}[backend]
+    acc = "->" if backend == "atlas" else "."
+    md: List[Dict[str, Any]] = []
+    chosen = R.sample(hits, min(len(hits), R.choice([1, 2, 3, 4])))
+    chosen.sort(key=lambda h: -h.start())
+    fn_done = False
+    for k, h in enumerate(chosen):
+        if not fn_done and R.random() < 0.35:
+            text = text[:h.start()] + f"UserSq({h.group(0)})" + text[h.end():]
+            fn_done = True
+        else:
+            text = text[:h.start()] + f"{h.group(1)}.MScale({R.choice(['1.5', '2.0', h.group(1) + '.eta()'])})" + text[h.end():]
+    if "UserSq(" in text:
+        md.append({"metadata_type": "add_cpp_function", "name": "UserSq", "include_files": ["cmath", "vector"], "arguments": ["x"], "code": ["auto result = x * x + 1.0;"], "return_type": "double"})
+    if ".MScale(" in text:
+        md.append({"metadata_type": "add_cpp_function", "name": "MScale", "include_files": ["cmath"], "arguments": ["f"], "code": [f"auto result = obj_m{acc}pt() * f;"], "return_type": "double",
+                   "method_object": "obj_m", "instance_object": cls})
+    return text, md
+
+
 def make_variants(ctx: Ctx, q: str, md: List[Dict[str, Any]], R) -> List[Tuple[str, str, str]]:
     """[(kind, query text, wire)] ; the base query text has metadata attached at the dataset."""
     full = diff.attach_metadata(q, md)
@@ -62,6 +88,14 @@ def make_variants(ctx: Ctx, q: str, md: List[Dict[str, Any]], R) -> List[Tuple[s
         t, n = V.alpha_rename(tree, R, pool)
         if n:
             out.append(("alpha", ast.unparse(t), "ast"))
+    # the two extremes: every parameter gets the SAME name wherever the side condition allows it (siblings, non-capturing
+    # nesting), and every parameter gets its own name
+    t, n = V.alpha_rename(tree, R, ["zz"])
+    if n:
+        out.append(("alpha_all_same", ast.unparse(t), "ast"))
+    t, n = V.alpha_rename_distinct(tree)
+    if n:
+        out.append(("alpha_all_distinct", ast.unparse(t), "ast"))
     out.append(("style_function", ast.unparse(V.to_style(tree, "function")), "ast"))
     out.append(("style_method", ast.unparse(V.to_style(tree, "method")), "ast"))
     ft, n = V.fuse(tree)
@@ -72,6 +106,15 @@ def make_variants(ctx: Ctx, q: str, md: List[Dict[str, Any]], R) -> List[Tuple[s
         L = V.chain_length(stripped)
         for d in range(0, L + 1):
             out.append((f"metadata_at_{d}", ast.unparse(V.place_metadata(stripped, mds, d)), "ast"))
+        # metadata riding on expressions INSIDE the query: on a collection call (how helper libraries send it), and on a
+        # tuple element the rest of the query never uses
+        for kind, f in (("metadata_on_inner_collection", V.metadata_on_inner_collection), ("metadata_on_discarded_element", V.metadata_on_discarded_element)):
+            t = f(stripped, mds)
+            if t is not None:
+                out.append((kind, ast.unparse(t), "ast"))
+        tt, nt = V.metadata_lists_as_tuples(tree)
+        if nt:
+            out.append(("metadata_lists_as_tuples", ast.unparse(tt), "ast"))
     return out
 
 
@@ -95,6 +138,12 @@ def run(ctx: Ctx) -> int:
                 except qgen.CannotGenerate:
                     continue
                 md = diff.members_used(s, q["query"])
+                if R.random() < 0.3:
+                    q = dict(q)
+                    q["query"], umd = with_user_functions(R, backend, q["query"])
+                    md = md + umd
+                    if umd:
+                        ctx.count("queries_with_injected_functions")
                 if R.random() < 0.3:
                     # registered namespaces (define_enum) must not capture a lambda parameter that happens to carry their name
                     md = md + [{"metadata_type": "define_enum", "namespace": "xAOD.Jet", "name": "Color", "values": ["Red", "Blue"]},
